@@ -25,6 +25,9 @@ var thorough = os.Getenv("VERIF_TIER") == "thorough"
 func Fragments(t *rapid.T, label string, alphabet []string, maxN int) []byte {
 	n := rapid.IntRange(0, maxN).Draw(t, label+"#")
 	var b []byte
+	if rapid.IntRange(0, 15).Draw(t, label+"bom") == 0 {
+		b = append(b, "\xef\xbb\xbf"...) // a byte order mark at the very start: data like any other
+	}
 	for i := 0; i < n; i++ {
 		switch k := rapid.IntRange(0, 49).Draw(t, label+"?"); {
 		case k < 5:
